@@ -402,9 +402,15 @@ pub fn unit(rng: &mut Rng, c: u32, l: u32) -> String {
 }
 
 pub fn session(rng: &mut Rng, c: u32, l: u32, units: usize) -> String {
+    // one unit in seven is an earlier unit of the same session sent again verbatim: an
+    // implementation that remembers "the last X" (a memo, a cache, a sticky flag) is only wrong
+    // when the identical request returns after something else changed the state behind it
     let mut s = String::new();
+    let mut seen: Vec<String> = Vec::new();
     for _ in 0..units {
-        s.push_str(&unit(rng, c, l));
+        let u = if !seen.is_empty() && rng.below(7) == 0 { rng.pick(&seen).clone() } else { unit(rng, c, l) };
+        s.push_str(&u);
+        seen.push(u);
     }
     s
 }
@@ -544,6 +550,35 @@ pub fn random_cuts(rng: &mut Rng, n: usize, k: usize) -> Vec<usize> {
     let mut c: Vec<usize> = (0..k).map(|_| rng.usize(n + 1)).collect();
     c.sort();
     c
+}
+
+/// One or two operations that change, by a route of their own, state that other operations
+/// may have remembered (used between two identical requests: "X, perturbation, X again").
+pub fn perturbation(rng: &mut Rng, c: u32, l: u32) -> Vec<crate::sys::Op> {
+    use crate::sys::Op;
+    use Call::*;
+    let mut v = Vec::new();
+    for _ in 0..1 + rng.below(2) {
+        v.push(match rng.below(16) {
+            0 => Op::Api(RestoreCursor),
+            1 => Op::Api(SaveCursor),
+            2 => Op::Api(Reset),
+            3 => Op::Feed("\x1bc".into()),
+            4 => Op::Api(Sgr(rendition(rng))),
+            5 => Op::Api(CursorPosition(param(rng, l), param(rng, c))),
+            6 => Op::Api(SetMode(vec![*rng.pick(&[3u32, 5, 6, 7, 25])], true)),
+            7 => Op::Api(ResetMode(vec![*rng.pick(&[3u32, 5, 6, 7, 25])], true)),
+            8 => Op::Api(if rng.bool() { SetMode(vec![*rng.pick(&[4u32, 20])], false) } else { ResetMode(vec![*rng.pick(&[4u32, 20])], false) }),
+            9 => Op::Api(Resize(Some(rng.range(1, l + 3)), Some(rng.range(1, c + 3)))),
+            10 => Op::Api(Display),
+            11 => Op::Api(Tab),
+            12 => Op::Api(Draw(marker(rng.below(40) as u32, rng.below(9) as u32, c).to_string())),
+            13 => Op::Api(if rng.bool() { ShiftOut } else { ShiftIn }),
+            14 => Op::Api(SetMargins(param(rng, l), param(rng, l))),
+            _ => Op::Feed((*rng.pick(&["\x18", "\x1b[?7$p", "\x1b[1;2\x1a", "\x1b]9;zz\x07", "\x1b%G", "\r\n"])).into()),
+        });
+    }
+    v
 }
 
 /// every listener call with boundary-biased arguments (API workloads)
